@@ -190,7 +190,7 @@ func c11r2(p *Prog, r *Reporter) {
 		changed := &MustFlow{Fn: fn, InstrGen: changesEntities}
 		changed.Run()
 		name := p.FuncName(fn)
-		n := 0
+		n, nm := 0, 0
 		for _, site := range callsIn(fn) {
 			direct := site.Common().IsInvoke() && site.Common().Method.Name() == "Notify" && isNamed(site.Common().Value.Type(), "/ecs", "Listener")
 			helper := false
@@ -198,6 +198,17 @@ func c11r2(p *Prog, r *Reporter) {
 				// calls of pure notification helpers (functions that notify and change no entity state)
 				if p.Mod(sc).Has(isCore) == nil {
 					helper = true
+				}
+			}
+			if sc := site.Common().StaticCallee(); sc != nil && not[sc] && !direct && !helper && copyTo != nil {
+				// a callee that changes entity state and delivers its own event (the public NewEntity used as a helper):
+				// the event it sends must already describe finished components
+				nm++
+				cons := "call of a notifying mutator #" + itoa(nm) + " (" + sc.Name() + ")"
+				if reachableFrom(fn, site.(ssa.Instruction), func(i ssa.Instruction) bool { return isCallTo(i, copyTo) }) {
+					r.Bad(name, cons, p.Pos(site.Pos()), "component values are copied (copyTo) after a call that already delivered the entity's event: the listener sees the new entity with zeroed components")
+				} else {
+					r.OK(name, cons, p.Pos(site.Pos()), "no component-value copy follows the call that delivers the event")
 				}
 			}
 			if !direct && !helper {
